@@ -34,13 +34,17 @@ pub struct Link {
     /// fixture + class-level override, or a redefinition further down): the parameter denotes that one
     #[serde(default)]
     pub dup_before: bool,
+    /// requesting links only: declared with `@pytest.fixture(name="fx")` on a function named otherwise
+    #[serde(default)]
+    pub alias: bool,
 }
 
 fn fxdef(l: &Link) -> Item {
     let mut f = Item::fixture("fx", if l.requests { &["fx"] } else { &[] });
-    if let Item::Fixture { wrapped: w, oneline: o, .. } = &mut f {
+    if let Item::Fixture { wrapped: w, oneline: o, alias: a, .. } = &mut f {
         *w = l.wrapped && l.requests;
         *o = l.oneline && l.requests;
+        *a = l.alias && l.requests;
     }
     f
 }
@@ -125,16 +129,16 @@ impl Chain {
             }
             let positions: Vec<usize> = (0..npos).filter(|p| mask & (1 << p) != 0).collect();
             // per link options
-            // (imported, requests, below, wrapped, oneline, dup_before)
-            let opts: Vec<Vec<(bool, bool, bool, bool, bool, bool)>> = positions
+            // (imported, requests, below, wrapped, oneline, dup_before, alias)
+            let opts: Vec<Vec<(bool, bool, bool, bool, bool, bool, bool)>> = positions
                 .iter()
                 .map(|&p| {
                     if p == 0 {
-                        vec![(false, false, false, false, false, false), (false, true, false, false, false, false), (false, false, true, false, false, false), (false, true, true, false, false, false), (false, true, false, true, false, false), (false, true, true, true, false, false), (false, true, false, false, true, false), (false, true, true, false, true, false), (false, true, false, false, false, true), (false, true, false, true, false, true)]
+                        vec![(false, false, false, false, false, false, false), (false, true, false, false, false, false, false), (false, false, true, false, false, false, false), (false, true, true, false, false, false, false), (false, true, false, true, false, false, false), (false, true, true, true, false, false, false), (false, true, false, false, true, false, false), (false, true, true, false, true, false, false), (false, true, false, false, false, true, false), (false, true, false, true, false, true, false), (false, true, false, false, false, false, true), (false, true, false, true, false, false, true)]
                     } else if p <= depth {
-                        vec![(false, false, false, false, false, false), (false, true, false, false, false, false), (true, false, false, false, false, false), (true, true, false, false, false, false), (false, true, false, true, false, false), (true, true, false, true, false, false), (false, true, false, false, true, false), (false, true, false, false, false, true)]
+                        vec![(false, false, false, false, false, false, false), (false, true, false, false, false, false, false), (true, false, false, false, false, false, false), (true, true, false, false, false, false, false), (false, true, false, true, false, false, false), (true, true, false, true, false, false, false), (false, true, false, false, true, false, false), (false, true, false, false, false, true, false), (false, true, false, false, false, false, true)]
                     } else {
-                        vec![(false, false, false, false, false, false)]
+                        vec![(false, false, false, false, false, false, false)]
                     }
                 })
                 .collect();
@@ -153,6 +157,7 @@ impl Chain {
                             wrapped: opts[i][idx[i]].3,
                             oneline: opts[i][idx[i]].4,
                             dup_before: opts[i][idx[i]].5,
+                            alias: opts[i][idx[i]].6,
                         })
                         .collect(),
                 });
@@ -196,7 +201,7 @@ fn refs_expected(ws: &Ws, r: &crate::ws::Rendered, d: DefId) -> Vec<Loc> {
 pub fn run(rep: &Report) {
     let thorough = is_thorough();
     let depth = 3;
-    let max_len = if thorough { 5 } else { 4 };
+    let max_len = if thorough { 4 } else { 3 };
     let chains = Chain::enumerate(depth, max_len);
     let cnt = Counters::new();
     let judged_lines = std::sync::atomic::AtomicU64::new(0);
@@ -259,6 +264,11 @@ pub fn run(rep: &Report) {
                 }
                 for (qline, col) in sweep {
                     let on_name = qline == ds.line && col >= ds.start && col < ds.end;
+                    // `@pytest.fixture(name="fx") def fx_impl(fx)`: the token after `def` is not the
+                    // fixture's name; what a request on it should answer is not stated — not judged
+                    if on_name && matches!(&ws.files[this.file].items[this.item], Item::Fixture { alias: true, .. }) {
+                        continue;
+                    }
                     let on_param = qline == pu.line && col >= pu.start && col < pu.end;
                     let wrapped_tag = if pu.line != ds.line { " [wrapped signature]" } else { "" };
                     let q = |kind: &str| json!({"kind": kind, "file": ws.files[this.file].rel, "line": qline, "col": col});
